@@ -248,3 +248,21 @@ Proof.
     + left. apply (memb_spec prog_eqb prog_eqb_spec); auto.
     + right. apply existsb_exists. exists (t, o); auto.
 Qed.
+
+(** ---- the language list the glue hands to the checkers ---- *)
+From PS Require Import Gram.DetProofs.
+
+Lemma language_list_ok tbl f x : table_ok tbl = true ->
+  NoDup (language f tbl x) /\ forall p, In p (language f tbl x) <-> member_of f tbl x p = true.
+Proof.
+  intros Hok. split; [apply language_NoDup; auto|].
+  intros p. rewrite (language_spec tbl f x p Hok). unfold member_of.
+  rewrite !andb_true_iff, Nat.leb_le. tauto.
+Qed.
+
+Theorem enumeration_decided tbl f x out : table_ok tbl = true ->
+  check_enum (member_of f tbl x) (length (language f tbl x)) out = true <-> Permutation out (language f tbl x).
+Proof.
+  intros Hok. destruct (language_list_ok tbl f x Hok) as [Hnd Hm].
+  apply check_enum_spec; auto.
+Qed.
